@@ -28,6 +28,8 @@ CONFIG = {
                 spec=['C10/'], n=(210, 4000)),
     'C08': dict(profiles=['indicators', 'indicators', 'objectives', 'mixed'], fwd_tags=['ind', 'cons', 'obj'], bwd=True, o1=False,
                 spec=['C08/'], n=(240, 4000)),
+    'C09': dict(profiles=['buffers', 'buffers', 'indicators'], fwd_tags=['buf'], bwd=True, o1=False,
+                spec=['C09/'], n=(210, 3000)),
     'C18': dict(profiles=['malformed', 'malformed', 'mixed'], fwd_tags=[], bwd=False, o1=True, spec=[], n=(400, 6000)),
 }
 
